@@ -1,3 +1,3 @@
 SPECIFICATION Spec
-INVARIANTS IntroOrderOK RecoveredOpens RecoveredIsPrefix RecoveredHasAcked RecoveredConsistent PostWriteOK RollbackExact PointsAreStates PointsOrdered PointsIncludeNewest PointsHonourKeep SourceUnaffected
+INVARIANTS AckedAfterCommit IntroOrderOK RecoveredOpens RecoveredIsPrefix RecoveredHasAcked RecoveredConsistent PostWriteOK RollbackExact PointsAreStates PointsOrdered PointsIncludeNewest PointsHonourKeep SourceUnaffected
 CHECK_DEADLOCK FALSE
